@@ -383,7 +383,7 @@ fn main() {
          distinct import string / stored hash",
     );
     // quiet the library's tracing output (no subscriber is installed) and panics caught on purpose
-    std::panic::set_hook(Box::new(|_| {}));
+    install_quiet_hook();
     if let Some(path) = &args.replay {
         replay(path, &mut rep);
         rep.write(&args.out);
